@@ -141,6 +141,7 @@ TAB_DESC = {
     "T16": "T16 paired scalar constants mutually consistent",
     "T17": "T17 MAX_EDGE_LENGTH_RADS[r] >= average edge length, decreasing",
     "T18": "T18 pole-cell tables hold valid cells of the right resolution",
+    "T22": "T22 ijkToIj/ijToIjk and ijkToCube/cubeToIjk are mutually inverse linear maps modulo (1,1,1)",
     "T21": "T21 _upAp7/_upAp7r (and checked variants) are the inverse linear maps of _downAp7/_downAp7r (7*identity in IJ coordinates, scale 1/7)",
     "T20": "T20 PENTAGON_ROTATIONS_REVERSE_NONPOLAR/_POLAR undo the forward unfolding of an index on a pentagon base cell (image of the forward map)",
     "T19": "T19 cwOffsetPent = the faces on which the pentagon's wedge has the deleted K wedge as clockwise neighbour (from faceIjkBaseCells)",
@@ -337,11 +338,11 @@ PARTS = {
     "C05": [part_guards("C05"), part_errflow("C05"), part_bitprov("indexops", "C05"), part_tables(["T1", "T2", "T3", "T10", "T11", "T7", "T19"], {"T7": ["baseCellNeighbors", "baseCellNeighbor60CCWRots"]}), part_cform("C05"), part_hashmod(["_gridDiskDistancesInternal"], 1), part_wit("C05")],
     "C06": [part_guards("C06"), part_errflow("C06"), part_bitprov("indexops", "C06"), part_drain(["uncompactCells"]), part_bw("C06"), part_hashmod(["compactCells"], 2)],
     "C08": [part_fold("C08"), part_tables(["T5", "T9", "T13"]), part_cform("C08"), part_wit("C08")],
-    "C09": [part_guards("C09"), part_errflow("C09"), part_bitprov("indexops", "C09"), part_tables(["T1", "T2", "T3", "T10", "T14", "T20", "T21"]), part_ovf, part_wit("C09")],
+    "C09": [part_guards("C09"), part_errflow("C09"), part_bitprov("indexops", "C09"), part_tables(["T1", "T2", "T3", "T10", "T14", "T20", "T21", "T22"]), part_ovf, part_wit("C09")],
     "C10": [part_guards("C10"), part_errflow("C10"), part_bitprov("indexops", "C10"), part_tables(["T8", "T12"]), part_cform("C10"), part_fold("C10"), part_wit("C10")],
     "C11": [part_guards("C11"), part_errflow("C11"), part_tables(["T8", "T12", "T7"], {"T7": ["pentagonDirectionFaces"]}), part_wit("C11")],
     "C12": [part_guards("C12"), part_ret, part_errdisc, part_errflow("C12"), part_ovf, part_idx, part_bw(None), part_hashmod(None, 5), part_cform("C12"), part_wit("C12")],
-    "C13": [part_guards("C13"), part_errflow("C13"), part_bitprov("indexops", "C13"), part_cform("C13"), part_wit("C13")], "C14": [part_guards("C14"), part_errflow("C14"), part_bw("C14"), part_cform("C14"), part_tables(["T14", "T20", "T21"])], "C15": [part_guards("C15"), part_errflow("C15"), part_bw("C15"), part_sib, part_tables(["T17", "T18"]), part_wit("C15")],
+    "C13": [part_guards("C13"), part_errflow("C13"), part_bitprov("indexops", "C13"), part_cform("C13"), part_wit("C13")], "C14": [part_guards("C14"), part_errflow("C14"), part_bw("C14"), part_cform("C14"), part_tables(["T14", "T20", "T21", "T22"])], "C15": [part_guards("C15"), part_errflow("C15"), part_bw("C15"), part_sib, part_tables(["T17", "T18"]), part_wit("C15")],
     "C19": [part_tables(["T5", "T9"]), part_bw("C19"), part_cform("C19"), part_wit("C19")],
     "C20": [part_guards("C20"), part_fmt, part_wit("C20")],
 }
